@@ -53,4 +53,7 @@ def opStr2bool (c : Json) : R Json := do
   | some b => return Json.mkObj [("o", "ok"), ("v", Json.bool b)]
   | none => return Json.mkObj [("o", "err")]
 
+def namingOps : List (String × (Json → R Json)) :=
+  [("naming", opNaming), ("bool.neg", opBoolNeg), ("bool.run", opBoolRun), ("str2bool", opStr2bool)]
+
 end SpVerif.Drive
